@@ -413,7 +413,7 @@ class AsyncBaseClientOpenTelemetry:
                 data = await self._handle_ws_message(message, websocket)
                 if data is _WS_COMPLETE:
                     break
-                if data:
+                if data is not None:
                     yield data
 
     async def _send_connection_init(self, websocket: ClientConnection) -> None:
@@ -626,7 +626,7 @@ class AsyncBaseClientOpenTelemetry:
                     )
                     if data is _WS_COMPLETE:
                         break
-                    if data:
+                    if data is not None:
                         yield data
 
     async def _send_connection_init_with_telemetry(
